@@ -21,6 +21,7 @@ PassCfg api_cfg(PassMode mode, int who, bool track) {
     c.solo_task = who;
     c.victim = who;
     c.track_static = track;
+    c.rec_edges = track;
     c.exec = exec_api_op;
     c.before_tasks = c12_before_tasks;
     return c;
@@ -274,7 +275,7 @@ static void c12_crash_hook(int sig) {
 
 // ------------------------------------------------------------------ targeted schedules
 static bool build_targeted(Rng &r, const Plan &plan, const Solo &solo, Schedule &s) {
-    struct V { int t, o; uint32_t nev; int w; };
+    struct V { int t, o; uint32_t nev; int w; const OpResult *sr; };
     std::vector<V> cands;
     for (size_t t = 0; t < plan.tasks.size(); t++)
         for (size_t o = 0; o < plan.tasks[t].ops.size(); o++) {
@@ -291,7 +292,8 @@ static bool build_targeted(Rng &r, const Plan &plan, const Solo &solo, Schedule 
                         if (op2.fn == plan.tasks[t].ops[o].fn) { w += 3; break; }
                         if (g_fn[op2.fn].fam == g_fn[plan.tasks[t].ops[o].fn].fam) { w += 1; break; }
                     }
-            cands.push_back({(int)t, (int)o, sr.nev, w});
+            if (sr.n_edge) w += 12; // the call touches a word it shares with a neighbouring task's memory
+            cands.push_back({(int)t, (int)o, sr.nev, w, &sr});
         }
     if (cands.empty() || plan.tasks.size() < 2) return false;
     int total = 0;
@@ -319,6 +321,15 @@ static bool build_targeted(Rng &r, const Plan &plan, const Solo &solo, Schedule 
     int npts = 1 + (r.chance(1, 3) ? r.below(3) : 0);
     std::vector<uint32_t> evs;
     for (int i = 0; i < npts; i++) evs.push_back(1 + r.below(v.nev));
+    // conflict-directed: preempt exactly where the call touches memory next to (or inside) another task's - before the
+    // load or store executes - or within a few events after it
+    if (v.sr->n_edge && r.chance(5, 6)) {
+        evs.clear();
+        uint32_t e = v.sr->edge_ev[r.below(v.sr->n_edge)];
+        if (r.chance(1, 3)) e += 1 + r.below(6);
+        if (e > v.nev) e = v.nev;
+        evs.push_back(e ? e : 1);
+    }
     std::sort(evs.begin(), evs.end());
     evs.erase(std::unique(evs.begin(), evs.end()), evs.end());
     int wnops = (int)plan.tasks[w].ops.size();
@@ -342,7 +353,7 @@ struct C12Stats {
     uint64_t fn_preempted[FN_COUNT] = {0};
     uint64_t fn_same_conflict[FN_COUNT] = {0};
     uint64_t faults_alloc = 0, faults_wr = 0, faults_rd = 0;
-    uint64_t unstable = 0, nondeterministic = 0, footprint_ops = 0, mismatches = 0, carry_ops = 0;
+    uint64_t unstable = 0, nondeterministic = 0, footprint_ops = 0, mismatches = 0, carry_ops = 0, enumerated_conflict_schedules = 0;
     uint64_t det_checked = 0;
     std::set<uint64_t> fingerprints; // nontrivial schedule executions
     std::set<uint64_t> triples;
@@ -384,7 +395,7 @@ static void flush_stats(C12Stats &st, const Args &a) {
     auto add = [&](const char *k, uint64_t v) { s += (s.size() > 1 ? "," : "") + std::string("\"") + k + "\":" + std::to_string(v); };
     add("adjacent_plans", st.adjacent_plans); add("plans", st.plans); add("sched_exec", st.sched_exec); add("events", st.events); add("switches", st.switches);
     add("inner_switches", st.inner_switches); add("ops", st.ops); add("unstable", st.unstable); add("nondeterministic", st.nondeterministic);
-    add("det_checked", st.det_checked); add("footprint_ops", st.footprint_ops); add("carry_ops", st.carry_ops); add("mismatches", st.mismatches);
+    add("det_checked", st.det_checked); add("footprint_ops", st.footprint_ops); add("carry_ops", st.carry_ops); add("enumerated_conflict_schedules", st.enumerated_conflict_schedules); add("mismatches", st.mismatches);
     add("faults_alloc", st.faults_alloc); add("faults_wr", st.faults_wr); add("faults_rd", st.faults_rd);
     add("strat_sequential", st.strat[0]); add("strat_uniform", st.strat[1]); add("strat_pct", st.strat[2]); add("strat_targeted", st.strat[3]);
     s += ",\"fam_ops\":{";
@@ -444,7 +455,7 @@ int c12_batch(const Args &a) {
         for (int k = 0; k < nf; k++) g.fams.push_back(cr.below(FAM_NFAM));
         g.faults = cr.chance(1, 2) && !getenv("VERIF_NOFAULTS");
         g.violations = cr.chance(3, 4);
-        if (cr.chance(1, 10) || getenv("VERIF_ADJACENT_ONLY")) {
+        if (cr.chance(1, 5) || getenv("VERIF_ADJACENT_ONLY")) {
             // adjacent-data plan: few short calls of the writing families on buffers that share a word across tasks
             g.adjacent = true;
             g.ntasks = 2;
@@ -573,13 +584,31 @@ int c12_batch(const Args &a) {
         g_cur_phase = "conc";
         printf("BEGIN %llu conc\n", (unsigned long long)i);
         fflush(stdout);
-        for (int k = 0; k < a.schedules; k++) {
+        // adjacent-data plans: besides the seeded schedules, every conflict point is tried once - each event at which a
+        // call touches a word shared with a neighbouring task's memory, with every other task run to its end at exactly
+        // that point (bounded: 64 per plan; these plans have two tasks and one or two short calls each)
+        std::vector<Schedule> enumerated;
+        if (g.adjacent)
+            for (size_t t = 0; t < plan.tasks.size(); t++)
+                for (size_t o = 0; o < plan.tasks[t].ops.size(); o++)
+                    for (int e = 0; e < solo.res[t][o].n_edge; e++)
+                        for (size_t w = 0; w < plan.tasks.size(); w++)
+                            if (w != t && enumerated.size() < 64) {
+                                Schedule es;
+                                es.start = (int)t;
+                                es.sw.push_back({(int)t, (int)o, solo.res[t][o].edge_ev[e], (int)w});
+                                enumerated.push_back(es);
+                            }
+        st.enumerated_conflict_schedules += enumerated.size();
+        for (int k = 0; k < a.schedules + (int)enumerated.size(); k++) {
             Rng kr(mix64(mix64(rs, 4), k));
-            int kind = kr.below(20);
+            int kind = k >= a.schedules ? 99 : (int)kr.below(20);
+            if (g.adjacent && kind != 99 && kr.chance(2, 3)) kind = 15; // adjacent-data plans: mostly conflict-directed schedules
             Schedule targeted;
             Strategy *strat = nullptr;
             int sk;
-            if (kind < 5) { sk = 0; strat = new RandomStrategy(kr.next(), 0, (int)plan.tasks.size(), solo.events, 0, 0); }
+            if (kind == 99) { sk = 3; strat = new ReplayStrategy(enumerated[k - a.schedules], (int)plan.tasks.size()); }
+            else if (kind < 5) { sk = 0; strat = new RandomStrategy(kr.next(), 0, (int)plan.tasks.size(), solo.events, 0, 0); }
             else if (kind < 11) { static const uint32_t ps[] = {8, 32, 128, 512, 2048}; sk = 1; strat = new RandomStrategy(kr.next(), 1, (int)plan.tasks.size(), solo.events, ps[kr.below(5)], 0); }
             else if (kind < 15) { sk = 2; strat = new RandomStrategy(kr.next(), 2, (int)plan.tasks.size(), solo.events, 0, 2 + kr.below(3)); }
             else if (build_targeted(kr, plan, solo, targeted)) { sk = 3; strat = new ReplayStrategy(targeted, (int)plan.tasks.size()); }
